@@ -1,5 +1,6 @@
 (* C33 — version comparison is a consistent Debian-style ordering.
-   This file holds the property theorems only: statement, `exact <lemma>`, Print Assumptions. *)
+   This file holds the property theorems only: statement, `exact <lemma>`, Print Assumptions.
+   Model: models/Version.v (strutil/version.go function by function; chOrder regenerated into gen/ChOrder.v). *)
 From Coq Require Import List NArith ZArith Bool.
 Require Import V.lib.Bytes V.models.Version V.proofs.VersionProofs.
 
@@ -8,3 +9,52 @@ Theorem C33_epoch_rejected : forall a b : bytes,
   version_compare a b = Invalid <-> (match_epoch a = true \/ match_epoch b = true).
 Proof. intros a b; split; [apply invalid_only_epoch | apply epoch_rejected]. Qed.
 Print Assumptions C33_epoch_rejected.
+
+(* the comparison is total: the model's fuel (the loop bound of compareSubversion) is never exhausted,
+   so every theorem below speaks about a real result *)
+Theorem C33_total : forall a b : bytes, version_compare a b <> OutOfFuel.
+Proof. exact version_compare_total. Qed.
+Print Assumptions C33_total.
+
+(* reflexive: every version without an epoch compares equal to itself *)
+Theorem C33_reflexive : forall a : bytes, match_epoch a = false -> version_compare a a = Res 0%Z.
+Proof. exact version_compare_refl. Qed.
+Print Assumptions C33_reflexive.
+
+(* swapping the operands flips the sign, for all byte strings *)
+Theorem C33_sign_flip : forall (a b : bytes) (r : Z),
+  version_compare a b = Res r -> version_compare b a = Res (- r)%Z.
+Proof. exact version_compare_flip. Qed.
+Print Assumptions C33_sign_flip.
+
+(* antisymmetric: a <= b and b <= a only when they compare equal (both ways) *)
+Theorem C33_antisymmetric : forall (a b : bytes) (x y : Z),
+  version_compare a b = Res x -> version_compare b a = Res y -> (x <= 0)%Z -> (y <= 0)%Z -> x = 0%Z /\ y = 0%Z.
+Proof. exact version_compare_antisym. Qed.
+Print Assumptions C33_antisymmetric.
+
+(* results are exactly -1, 0 or +1 *)
+Theorem C33_result_range : forall (a b : bytes) (r : Z), version_compare a b = Res r -> (r = -1 \/ r = 0 \/ r = 1)%Z.
+Proof. exact version_compare_tri. Qed.
+Print Assumptions C33_result_range.
+
+(* transitive — PARTIAL. The full statement is
+     forall a b c, le a b -> le b c -> le a c   (and strictly when either step is strict), le x y := version_compare x y = Res r, r <= 0,
+   for all byte strings without NUL. What is proved here is that statement on the complete finite domain of all strings of
+   length <= 2 over the bytes `0 a . ~ -` (by computation in the kernel's VM, lifted with forallb_forall); beyond that
+   domain transitivity is only monitored on the implementation's observed results (driver `triples`). Missing: the
+   order-embedding of fragments into token keys that would give the unbounded statement. *)
+Theorem C33_transitive_partial : forall a b c : bytes,
+  In a small_domain -> In b small_domain -> In c small_domain -> trans_ok a b c = true.
+Proof. exact transitive_small_domain. Qed.
+Print Assumptions C33_transitive_partial.
+
+(* agreement with Debian ordering — PARTIAL. Full statement: for all structurally valid versions a b (debian_wf: no NUL, no
+   epoch, non-empty upstream part, non-empty revision after a hyphen), version_compare a b = Res (dpkg_compare a b), where
+   dpkg_compare is the independent model of dpkg's verrevcmp. Proved here on the complete finite domain of all strings of
+   length <= 3 over the bytes `0 a . ~ -`; beyond it the monitor compares the implementation with the reference model on every
+   generated pair and with /usr/bin/dpkg on a sample. Missing: the simulation between the fragment loop and verrevcmp. *)
+Theorem C33_matches_debian_partial : forall a b : bytes,
+  In a debian_domain -> In b debian_domain -> debian_ok a b = true.
+Proof. exact debian_small_domain. Qed.
+Print Assumptions C33_matches_debian_partial.
